@@ -191,7 +191,42 @@ def run(rep):
             got = b"".join(GD.resolve(x) for x in outs.split(",") if x != "_") + GD.resolve(tail)
             if got != b"".join(pk(p) for p in it["ps"]):
                 rep.fail("buffered-writer-concat", "buffered writer output is not the concatenation of the pkt-lines", it["req"])
-    # 8. capability lists and ref lines (implementation only; contents without NUL/LF/space)
+    # 8a. capability lists and ref lines vs Model/Caps.v: formatting byte for byte, parsing of formatted and of odd lines
+    impl = Impl(PROP)
+    model = Model(PROP)
+    tok = lambda: bytes(rng.choice(b"abcdefghijklmnopqrstuvwxyz0123456789-_=/.:") for _ in range(rng.randrange(1, 12)))
+    fl, fq = [], []
+    for _ in range(120 if not thorough else 3000):
+        caps = rng.choice(["NONE", "_"]) if rng.random() < 0.25 else ",".join(tok().hex() for _ in range(rng.randrange(1, 6)))
+        ref, sha = (b"refs/" + tok()).hex(), (b"%040x" % rng.getrandbits(160)).hex()
+        fl.append("refline %s %s %s" % (ref, sha, caps))
+        fq.append({"fn": "capline", "what": "refline", "ref": ref, "sha": sha, "caps": caps})
+    lines_hex = []
+    for q, r, m in zip(fq, impl.run(fq), model.run(fl)):
+        rep.case("ref-line-format", key=repr(q), nontrivial=q["caps"] not in ("NONE", "_"))
+        if r.get("v") != m:
+            rep.disagree("format_ref_line vs Caps.format_ref_line", q, m, r.get("v"))
+        else:
+            lines_hex.append((m, q))
+    odd = [b"", b"\n", b"x", b"x\0", b"x\0\n", b"x\0 \n", b"x\0a", b"x\0 a b", b"x\0a  b", b"x\0 a\tb", b"x\0a\0b", b"\0", b"\0\0", b"x \0 a \n", b"x\0a\r\n",
+           b"x\0a b\n\n", b" x\0a", b"x\0\x0ba", b"want " + b"a" * 40, b"want " + b"a" * 40 + b"\n", b"want " + b"a" * 40 + b" a b\n", b"want " + b"a" * 40 + b"  a\n",
+           b"want", b"want x y z ", b"a b"]
+    for m, q in lines_hex[:: 1 if thorough else 3]:
+        odd.append(bytes.fromhex(m))
+        if rng.random() < 0.3:
+            b = bytearray(bytes.fromhex(m))
+            b[rng.randrange(len(b))] = rng.choice([0, 32, 10, 9, 65])
+            odd.append(bytes(b))
+    el, eq = [], []
+    for d in odd:
+        for w in ("extract", "extractwant"):
+            el.append("%s %s" % (w, d.hex() or "_"))
+            eq.append({"fn": "capline", "what": w, "line": d.hex() or "_"})
+    for q, r, m in zip(eq, impl.run(eq), model.run(el)):
+        rep.case("caps-" + q["what"], key=repr(q), nontrivial=True, outcome=("valueerror" if m == "valueerror" else "parsed"))
+        if r.get("v") != m:
+            rep.disagree("%s vs Caps" % ("extract_capabilities" if q["what"] == "extract" else "extract_want_line_capabilities"), q, m, r.get("v"))
+    # 8. capability lists and ref lines: the round trip itself on the implementation (contents without NUL/LF/space)
     impl = Impl(PROP)
     reqs = []
     tok = lambda: bytes(rng.choice(b"abcdefghijklmnopqrstuvwxyz0123456789-_=/.:") for _ in range(rng.randrange(1, 12)))
